@@ -735,6 +735,30 @@ def check_consumer_reset_sites(eng, run):
     run.floor("C10.parser consumer reset sites", n, 6)
 
 
+def check_pause_decided_by_the_buffer_only(eng, run):
+    """read-side backpressure follows the fill level alone: `_maybe_pause_transport()` / `_maybe_resume_transport()` decide on the buffer
+    size, the water marks, the paused flag and the transport - not on whether a reader happens to be waiting.  Skipping the pause
+    'because the woken reader will drain the buffer' leaves a full buffer un-paused when that reader is cancelled first: asyncio then
+    gets an empty buffer from get_buffer(), treats it as fatal and drops the connection with everything that was buffered."""
+    OKW = ("paus", "nbytes", "buffer", "size", "limit", "water", "transport", "closing", "eof", "connection_lost")
+    n = 0
+    for fn in eng.db.all_functions():
+        if isinstance(fn.node, ast.Lambda) or fn.name not in ("_maybe_pause_transport", "_maybe_resume_transport") or "_asyncio" not in fn.module.name:
+            continue
+        n += 1
+        bad = []
+        for i in own_nodes(fn.node):
+            if isinstance(i, ast.If):
+                foreign = [d for a in ast.walk(i.test) if isinstance(a, ast.Attribute) for d in [dotted(a)] if d and d.startswith(fn.self_name + ".") and not any(w in d.lower() for w in OKW)]
+                if foreign:
+                    bad.append((i, foreign))
+        for i, foreign in bad[:1]:
+            run.finding("C10.flow", fn, i, f"{fn.name}() decides on {sorted(set(foreign))}, which is not the fill level of the read buffer: a full buffer can stay un-paused (or a drained one paused) - "
+                        "asyncio aborts the connection on an empty get_buffer() and the buffered bytes are lost, or the reader starves")
+        run.ob("C10.flow", f"{fn.cls.name if fn.cls else ''}.{fn.name}:decided-by-fill-level-only", not bad)
+    run.floor("C10.flow read-side pause/resume deciders", n, 2)
+
+
 def run(eng, run):
     from sa.anchors import verify as _verify_anchor_names
     _verify_anchor_names(eng, run)
@@ -755,6 +779,7 @@ def run(eng, run):
     run.attempt(check_conservation, eng, run)
     run.attempt(check_ack, eng, run)
     run.attempt(check_parser, eng, run)
+    run.attempt(check_pause_decided_by_the_buffer_only, eng, run)
     run.attempt(check_consumer_reset_sites, eng, run)
     run.attempt(check_eof_latch, eng, run)
     sync_fns = [f for f in hold_functions(eng, False) if f.module.name.startswith(("easynetwork.lowlevel.api_sync.endpoints", "easynetwork.clients"))]
